@@ -21,10 +21,11 @@ import (
 const version = "0.1.8"
 
 var (
-	flagExecute string
-	file        string
-	args        []string
-	e           *env.Env
+	flagExecute    string
+	flagExecuteSet bool // -e was given, possibly with an empty source
+	file           string
+	args           []string
+	e              *env.Env
 )
 
 func main() {
@@ -32,7 +33,7 @@ func main() {
 
 	parseFlags()
 	setupEnv()
-	if flagExecute != "" || flag.NArg() > 0 {
+	if flagExecuteSet || flagExecute != "" || flag.NArg() > 0 {
 		exitCode = runNonInteractive()
 	} else {
 		exitCode = runInteractive()
@@ -45,13 +46,19 @@ func parseFlags() {
 	flagVersion := flag.Bool("v", false, "prints out the version and then exits")
 	flag.StringVar(&flagExecute, "e", "", "execute the Anko code")
 	flag.Parse()
+	flag.Visit(func(f *flag.Flag) {
+		if f.Name == "e" {
+			// -e was given: its source is executed even when it is empty
+			flagExecuteSet = true
+		}
+	})
 
 	if *flagVersion {
 		fmt.Println(version)
 		os.Exit(0)
 	}
 
-	if flagExecute != "" || flag.NArg() < 1 {
+	if flagExecuteSet || flagExecute != "" || flag.NArg() < 1 {
 		args = flag.Args()
 		return
 	}
@@ -68,7 +75,7 @@ func setupEnv() {
 
 func runNonInteractive() int {
 	var source string
-	if flagExecute != "" {
+	if flagExecuteSet || flagExecute != "" {
 		source = flagExecute
 	} else {
 		sourceBytes, err := ioutil.ReadFile(file)
